@@ -583,6 +583,37 @@ def _harmless_degree_guard(ka, st):
     return True
 
 
+def _early_exit_guard(ka, fi, st):
+    """`if D < c: return out` (also `D <= c-1`, `D == 1`) in front of the rest of the block is the guard `if D >= c:` around
+    that rest: harmless under the same conditions as _harmless_degree_guard"""
+    if st.orelse or not (len(st.body) == 1 and isinstance(st.body[0], ast.Return)):
+        return False
+    t = st.test
+    if not (isinstance(t, ast.Compare) and len(t.ops) == 1):
+        return False
+    l, r_, op = t.left, t.comparators[0], t.ops[0]
+    neg = {ast.Lt: ast.GtE, ast.LtE: ast.Gt, ast.Gt: ast.LtE, ast.GtE: ast.Lt}
+    if isinstance(op, ast.Eq) and isinstance(r_, ast.Constant) and r_.value == 1 and isinstance(l, ast.Name):
+        nt = ast.Compare(left=l, ops=[ast.Gt()], comparators=[r_])          # D == 1  <->  not D > 1   (D >= 1 always)
+    elif type(op) in neg:
+        nt = ast.Compare(left=l, ops=[neg[type(op)]()], comparators=[r_])
+    else:
+        return False
+    # the statements that follow the guard in its block
+    rest = None
+    for n in ast.walk(fi.node):
+        for attr in ('body', 'orelse', 'finalbody'):
+            blk = getattr(n, attr, None)
+            if isinstance(blk, list) and st in blk:
+                rest = blk[blk.index(st) + 1:]
+    if not rest:
+        return False
+    synth = ast.copy_location(ast.If(test=nt, body=[b for b in rest if not isinstance(b, ast.Return)], orelse=[]), st)
+    if not synth.body:
+        return True
+    return _harmless_degree_guard(ka, synth)
+
+
 def _existence_guard(ka, st):
     """`if D > c:` (also `D >= c+1`, `c < D`) with no else-branch whose body touches graded arrays at constant coefficient
     indices only, the largest being c: the guard says exactly that this coefficient exists, so lower orders cannot
@@ -715,6 +746,9 @@ def rule_grade(prop):
                     key = (fi.name, norm(st.test))
                     if all(isinstance(b, ast.Raise) for b in st.body) and not st.orelse:
                         r.ok(construct=fi.fq + ':shape-guard', sample='%s: `%s` only raises (input validation)' % (fi.qualname, norm(st.test)))
+                    elif _early_exit_guard(ka, fi, st):
+                        r.ok(construct=fi.fq + ':exit-guard', sample='%s: `%s` returns before statements that only define coefficients which do not exist when it holds'
+                                                                     % (fi.qualname, norm(st.test)))
                     elif _harmless_degree_guard(ka, st):
                         r.ok(construct=fi.fq + ':work-guard', sample='%s: `%s` only guards statements that define coefficients which do not exist / are never read '
                                                                      'when the guard fails' % (fi.qualname, norm(st.test)))
